@@ -167,9 +167,13 @@ class EventletWorker(AsyncWorker):
             acceptors.append(acceptor)
             eventlet.sleep(0.0)
 
+        # never sleep longer between two notify() calls than the arbiter allows
+        # (self.timeout is half of the configured timeout, 0 means no timeout)
+        tick = min(1.0, self.timeout or 1.0)
+
         while self.alive:
             self.notify()
-            eventlet.sleep(1.0)
+            eventlet.sleep(tick)
 
         self.notify()
         t = None
